@@ -249,6 +249,7 @@ func (x *Exec) signed(c *Client, userIdx int, m *ref.Msg, defect string, seed ui
 	hmacMode := ""
 	alter := false
 	emptyKey := false
+	appendNonce := false
 	switch defect {
 	case "":
 	case "nomi":
@@ -327,7 +328,11 @@ func (x *Exec) signed(c *Client, userIdx int, m *ref.Msg, defect string, seed ui
 			cr.nonce = "0"
 		}
 		valid = false
-	case "nonce-old":
+	case "nonce-old", "nonce-old-fresh-appended":
+		// (the second form carries, behind MESSAGE-INTEGRITY, a second NONCE attribute with the
+		// client's newest nonce: what follows the integrity attribute is not covered by it and
+		// decides nothing - the request is as old as the nonce that was signed)
+		appendNonce = defect == "nonce-old-fresh-appended"
 		cr.nonce = c.Nonce0
 		age := time.Since(c.Nonce0At)
 		// minute granularity: the nonce carries floor(mint/60s); accepted while the minute
@@ -387,6 +392,15 @@ func (x *Exec) signed(c *Client, userIdx int, m *ref.Msg, defect string, seed ui
 	if alter {
 		// flip a bit in the transaction id after signing... the id is covered by the HMAC
 		signedRaw[8+int(seed%12)] ^= 0x01
+	}
+	if appendNonce {
+		v := []byte(c.Nonce)
+		attr := make([]byte, 4+(len(v)+3)&^3)
+		binary.BigEndian.PutUint16(attr[0:2], ref.AttrNonce)
+		binary.BigEndian.PutUint16(attr[2:4], uint16(len(v))) //nolint:gosec
+		copy(attr[4:], v)
+		signedRaw = append(signedRaw, attr...)
+		binary.BigEndian.PutUint16(signedRaw[2:4], uint16(len(signedRaw)-20)) //nolint:gosec
 	}
 
 	return signedRaw, valid, judged
